@@ -540,3 +540,14 @@ where
     }
     0
 }
+
+/// Write a replay file for a case found by a fuzz target and return its path.
+pub fn write_fuzz_replay<C: Serialize>(id: &str, case: &C) -> PathBuf {
+    let h = case_hash(case);
+    let p = replay_path(id, &h);
+    if let Some(d) = p.parent() {
+        let _ = std::fs::create_dir_all(d);
+    }
+    let _ = std::fs::write(&p, serde_json::to_string_pretty(case).unwrap_or_default());
+    p
+}
